@@ -29,6 +29,8 @@ def den(t, memo=None):
         r = den(t.args[2], memo)
     elif op in ("to_teproj", "to_teaff"):
         r = den(t.args[0], memo)
+    elif op == "update_field" and t.args[1] == "inner":
+        r = den(t.args[2], memo)      # `self.inner = v` / in-place update of the wrapped point
     elif op == "field" and t.args[1] == "inner":
         # `.inner` of any element-valued term denotes that element
         r = den(t.args[0], memo)
